@@ -191,8 +191,12 @@ class HistoryUnit(corr.Unit):
     name = "histories"
     tagfn = None
 
-    def generate(self, rng, n, biased=False):
+    def generate(self, rng_main, n, biased=False):
+        import random
         out = []
+        # (the directed cases and the option draws added later use a private stream, so the random histories stay what they were)
+        rng = random.Random("c16-extra/%d" % C.seed())
+        rngo = random.Random("c16-opts/%d" % C.seed())
         # directed: a connector whose limit binds (hungry vehicles), compared with the same scenario plus an unrelated connector that
         # comes first and owns a charged battery (even seed => first): state kept across connectors inside a step shows here
         for k in range(min(n, 4)):
@@ -220,19 +224,24 @@ class HistoryUnit(corr.Unit):
             js["events"]["vehicle_events"] = []
             out.append({"js": js, "strategy": "peak_load_window", "options": {"ALLOW_NEGATIVE_SOC": True, "time_windows": tw_path()},
                         "weeks": 1, "other": "greedy", "seed": 2 * rng.randrange(10**5) + k})
-        for _ in range(n - len(out)):
-            strategy = rng.choice(["greedy", "balanced", "distributed", "balanced_market", "peak_shaving", "peak_shaving", "peak_load_window"])
-            slow = strategy in ("balanced_market", "peak_shaving", "peak_load_window")
+        rng = rng_main
+        for _ in range(n):
+            strategy = rng.choice(["greedy", "balanced", "distributed", "balanced_market", "peak_shaving", "peak_shaving"])
+            slow = strategy in ("balanced_market", "peak_shaving")
             js = scen.gen_scenario(rng, n_gc=rng.choice([1, 2]) if not slow else 1, steps=rng.choice([6, 12, 24]) if not slow else 8,
                                    interval=None if not slow else 60)
+            if rngo.random() < 0.15:
+                # some histories under peak_load_window (scenario drawn from the private stream)
+                strategy = "peak_load_window"
+                js = scen.gen_scenario(rngo, n_gc=1, steps=8, interval=60)
             js.pop("_features", None)
             opts = {"ALLOW_NEGATIVE_SOC": True}
             if rng.random() < 0.3:
                 opts["CONCURRENCY"] = 0.5
-            if rng.random() < 0.4:
+            if rngo.random() < 0.4:
                 # reports are aggregated at the end of the run (they must leave the scenario alone as well; round-4 seed C16-s9)
                 opts["testing"] = True
-            if rng.random() < 0.5:
+            if rngo.random() < 0.5:
                 # the default: the end-of-run flexibility report is computed (it must not touch the scenario either; round-3 seed C16-s8)
                 opts["skip_flex_report"] = False
             if strategy == "peak_load_window":
